@@ -354,6 +354,9 @@ def quatRows (w x y z s : Rat) : V3 × V3 × V3 :=
    ⟨s * (2 * (x * z - w * y)), s * (2 * (y * z + w * x)), s * (w * w - x * x - y * y + z * z)⟩)
 
 
+/-- `Point.scale(ratio, origin)`: the image of `x` under the scaling about `o` -/
+def scaleAbout (r : Rat) (o x : V3) : V3 := ⟨o.x + r * (x.x - o.x), o.y + r * (x.y - o.y), o.z + r * (x.z - o.z)⟩
+
 /-! ### line protocol -/
 
 def chunk8 : List Nat → Option Blocking
